@@ -1005,6 +1005,27 @@ func c10checkDate(r *Run, out, value string, d1904 bool, tpl c10dt, rep, via str
 var c10sysDateTags = []string{"[$-F800]", "[$-x-sysdate]", "[$-1010000]", "[$-f800]"}
 var c10sysTimeTags = []string{"[$-F400]", "[$-x-systime]"}
 
+// c10hhmmOK: s is hh:mm of the serial's instant (seconds floored or rounded to the nearest second).
+func c10hhmmOK(s, value string) bool {
+	x, ok := c10exact(value)
+	if !ok || x.Sign() < 0 {
+		return true
+	}
+	secsR := new(big.Rat).Mul(x, big.NewRat(86400, 1))
+	fl := new(big.Int).Quo(secsR.Num(), secsR.Denom())
+	nr := new(big.Int).Quo(new(big.Int).Add(new(big.Int).Mul(secsR.Num(), big.NewInt(2)), secsR.Denom()), new(big.Int).Mul(secsR.Denom(), big.NewInt(2)))
+	for _, t := range []*big.Int{fl, nr} {
+		if !t.IsInt64() {
+			return true
+		}
+		rem := t.Int64() % 86400
+		if s == fmt.Sprintf("%02d:%02d", rem/3600, rem%3600/60) {
+			return true
+		}
+	}
+	return false
+}
+
 // c10optDate: a date template is installed as an Options pattern and reached through a system tag
 // (or a built-in id for the short pattern); the text GetCellValue returns must show the fields of
 // the serial in the workbook's date system. Also emitted as a transcript line (hook + model).
@@ -1024,6 +1045,18 @@ func c10optDate(r *Run, value string, d1904 bool, ti int, kind string, tagi int)
 	case "short14":
 		o.short = tpl.code
 		id = 14
+	case "short22": // applyBuiltInNumFmt: ShortDatePattern + " hh:mm"
+		if strings.HasPrefix(tpl.kind, "ampm") {
+			return // an AM/PM marker in the pattern turns the appended hh into a 12-hour reading, as in Excel
+		}
+		o.short = tpl.code
+		id = 22
+	case "shortlang": // langNumFmtFuncEnUS: ids 27..31 and 50..58 follow ShortDatePattern
+		o.short = tpl.code
+		id = []int{27, 28, 29, 30, 31, 50, 51, 52, 53, 54, 55, 56, 57, 58}[tagi%14]
+	case "longtimelang": // langNumFmtFuncEnUS: ids 32..35 follow LongTimePattern
+		o.longTime = tpl.code
+		id = 32 + tagi%4
 	default:
 		return
 	}
@@ -1069,7 +1102,17 @@ func c10optDate(r *Run, value string, d1904 bool, ti int, kind string, tagi int)
 		if isNum, prec, dec := xl.VerifC10IsNumeric(value); !isNum || prec > 15 || strconv.FormatFloat(dec, 'f', -1, 64) != value {
 			return // the cell reader would normalise the stored text first
 		}
-		c10checkDate(r, strings.TrimPrefix(res.s, "ok:"), value, d1904, tpl, rep, ":options-"+kind+":GetCellValue", 0)
+		out := strings.TrimPrefix(res.s, "ok:")
+		if kind == "short22" {
+			// the pattern's rendering, a blank, then hh:mm of the same instant
+			i := strings.LastIndex(out, " ")
+			if i < 0 || !c10hhmmOK(out[i+1:], value) {
+				r.Fail("date:fields:hhmm:options-short22:GetCellValue", fmt.Sprintf("%q as id 22 with ShortDatePattern %q date1904=%v = %q: it must end with a blank and hh:mm of the serial", value, tpl.code, d1904, out), 0, rep)
+				return
+			}
+			out = out[:i]
+		}
+		c10checkDate(r, out, value, d1904, tpl, rep, ":options-"+kind+":GetCellValue", 0)
 	default:
 		r.Fail("optdate:error", fmt.Sprintf("GetCellValue of %q (%s=%q): %s", value, kind, tpl.code, res.s), 0, rep)
 	}
@@ -1540,6 +1583,9 @@ func runC10(r *Run, rng *Rng, replay string) {
 	c10optDate(r, "43543.50320601852", true, 0, "longdate", 1)
 	c10optDate(r, "45000.75", true, 0, "longtime", 0)
 	c10optDate(r, "45000.75", true, 0, "short14", 0)
+	c10optDate(r, "45000.75", false, 0, "short22", 0)
+	c10optDate(r, "45000.75", true, 9, "shortlang", 3)
+	c10optDate(r, "45000.75", false, 0, "longtimelang", 1)
 	for i := 0; i < 120*scale; i++ {
 		day := rng.Pick2([]int{61, 62, 366, 1462, 36526, 43831, 45000, 73050, 100000, rng.Range(61, 2900000)})
 		v := fmt.Sprintf("%d.%s", day, rng.Pick([]string{"0", "5", "25", "75", "125", "50320601852", fmt.Sprintf("%05d", rng.Intn(100000))}))
@@ -1547,7 +1593,7 @@ func runC10(r *Run, rng *Rng, replay string) {
 			v = strconv.FormatFloat(f, 'f', -1, 64)
 		}
 		ti := rng.Pick2([]int{0, 1, 3, 4, 5, 9, 10})
-		kind := rng.Pick([]string{"longdate", "longdate", "longtime", "short14"})
+		kind := rng.Pick([]string{"longdate", "longdate", "longtime", "short14", "short22", "shortlang", "longtimelang"})
 		c10optDate(r, v, rng.Bool(), ti, kind, rng.Intn(4))
 	}
 	// options on arbitrary codes (transcript): patterns x tags x cultures without an era calendar
